@@ -194,6 +194,9 @@ def evaluate(texts, spacing, first, base_us=0):
                 # the next caption has to start loading while the previous one is still displayed: the previous
                 # cue ends after the load has begun but well (> 3 frames) before the next start
                 s = prev_end + max(need // 2, int(6 * FRAME))
+            elif isinstance(spacing, str) and spacing.startswith("sweep:"):
+                # half-frame sweep around the point where the previous cue ends exactly when the next one starts loading
+                s = prev_end + need + int(Fraction(int(spacing[6:]), 2) * FRAME)
             else:
                 s = prev_end + 10000000
         cues.append((s, s + 2000000, lines))
@@ -257,7 +260,7 @@ def shards(tier, seed):
     sh += [{"k": "lines2x", "lo": i, "hi": min(len(types), i + 8), "full": tier != "quick"} for i in range(0, len(types), 8)]
     sh += [{"k": "stacks"}]
     sh += [{"k": "cues", "part": p} for p in range(4)]
-    sh += [{"k": "late"}]
+    sh += [{"k": "late"}, {"k": "sweep"}]
     return sh
 
 
@@ -312,6 +315,11 @@ def run_shard(d):
         for n in (3, 4):
             for combo in itertools.product(REP[:6] if n == 3 else REP[:4], repeat=n):
                 run_case(acc, [[make_line(*c, salt=3 * i) for i, c in enumerate(combo)]])
+    elif k == "sweep":
+        for a in REP[:3]:
+            for b in REP[:4]:
+                for j in range(-16, 17):
+                    run_case(acc, [[make_line(*a)], [make_line(*b, salt=5)]], f"sweep:{j}", "late")
     else:
         n = 0
         for ncues in (2, 3):
